@@ -6,6 +6,7 @@
 package main
 
 import (
+	"errors"
 	"crypto/rand"
 	"bytes"
 	"crypto"
@@ -67,12 +68,17 @@ type vcAgent struct {
 	agent.Agent
 	mu    sync.Mutex
 	privs []interface{}
+	mode  string // "ok", "nolifetime" (refuses entries that carry a lifetime, like old Windows agents), "refuse"
 }
 
 func (a *vcAgent) Add(k agent.AddedKey) error {
 	a.mu.Lock()
 	a.privs = append(a.privs, k.PrivateKey)
+	mode := a.mode
 	a.mu.Unlock()
+	if mode == "refuse" || (mode == "nolifetime" && k.LifetimeSecs > 0) {
+		return errors.New("agent refused operation")
+	}
 	return a.Agent.Add(k)
 }
 
@@ -234,6 +240,7 @@ func TestVerif(t *testing.T) {
 			Pref  string `json:"pref"`
 			Mode  string `json:"mode"`
 			Agent bool   `json:"agent"`
+			AMode string `json:"agentmode"`
 		}
 		if err := dec.Decode(&c); err != nil {
 			t.Fatal(err)
@@ -244,7 +251,7 @@ func TestVerif(t *testing.T) {
 		var ag *vcAgent
 		var lst net.Listener
 		if c.Agent {
-			ag = &vcAgent{Agent: agent.NewKeyring()}
+			ag = &vcAgent{Agent: agent.NewKeyring(), mode: c.AMode}
 			// what an agent that has been in use holds: certificates left over under the labels the client is about to
 			// use - one of them already expired, never given an agent lifetime - and a certificate of another tool
 			for _, lbl := range []string{"keymaster-" + c.Pref + "-alice", "keymaster-ed25519-alice", "other-tool-alice"} {
@@ -413,9 +420,29 @@ func TestVerif(t *testing.T) {
 		}
 		sort.Slice(files, func(a, b int) bool { return files[a]["path"].(string) < files[b]["path"].(string) })
 		firstOK := runs[0]["ok"].(bool)
-		enc.Encode(map[string]interface{}{"i": n, "ev": "ClientRun", "case": map[string]interface{}{"pref": c.Pref, "mode": c.Mode, "agent": c.Agent},
+		enc.Encode(map[string]interface{}{"i": n, "ev": "ClientRun", "case": map[string]interface{}{"pref": c.Pref, "mode": c.Mode, "agent": c.Agent, "agentmode": c.AMode},
 			"out": map[string]interface{}{"ok": firstOK, "bothRoundsOk": len(runs) == 2 && runs[1]["ok"].(bool), "error": errText, "requests": nreq,
 				"privateKeysKnown": len(privs), "wirePrivHits": hits, "publicHalvesSeenOnWire": pubSeen, "files": files, "agentLabels": labels,
+				"ownLabels": func() int {
+					n := 0
+					for _, l := range labels {
+						if strings.HasPrefix(l, "keymaster-") {
+							n++
+						}
+					}
+					return n
+				}(),
+				"privateFiles": func() int {
+					n := 0
+					for _, f := range files {
+						if p, _ := f["private"].(bool); p {
+							if d, _ := f["dir"].(bool); !d {
+								n++
+							}
+						}
+					}
+					return n
+				}(),
 				"duplicateLabels": dupLabels, "otherToolKept": func() bool {
 					for _, l := range labels {
 						if l == "other-tool-alice" {
